@@ -58,10 +58,10 @@ add(ce("last_sector", r"sector_count_type CatalogEntry::last_sector\(\) const",
        file="dfs/dfs_catalog.cc"))
 add(ce("visit_file_body_piecewise", r"bool CatalogEntry::visit_file_body_piecewise\s*\(DataAccess& media,\s*std::function<bool\(const byte\* begin, const byte\* end\)> visitor\) const",
        "static bool CatalogEntry_visit_file_body_piecewise(const struct CatalogEntry *self, struct DataAccess *media, struct visitor *visitor)",
-       [(r"auto buf = media\.read_block\(sec\);", "opt_SectorBuffer buf = DataAccess_read_block(media, sec);", 1),
+       [(r"auto buf = media\.read_block\(([^;]*)\);", r"opt_SectorBuffer buf = DataAccess_read_block(media, \1);", 1),
         (r"if \(!buf\)", "if (!buf.has)", 1),
         (r'throw BadFileSystem\("[^"]*"\);', "{ VERIF_THROW(BadFileSystem, 0); return false; }", 1),
-        (r"visitor\(buf->begin\(\), buf->begin\(\) \+ visit_len\)", "visitor_call(visitor, buf.val.d, buf.val.d + visit_len)", 1),
+        (r"buf->begin\(\)", "buf.val.d", 2), (r"\bvisitor\(", "visitor_call(visitor, ", 1),
         ASSERT(1),
         (r"(for \(sector_count_type sec = start; sec <= end; \+\+sec\))", r"\1 VISIT_LOOP_CONTRACT", 1)],
        file="dfs/dfs_catalog.cc"))
@@ -95,12 +95,12 @@ add({"name": "FileView_read_block", "file": "dfs/img_fileio.cc",
      "rules": [(NULLOPT_SB[0], NULLOPT_SB[1], 2),
                (r"safe_unsigned_multiply\(", "safe_unsigned_multiply_ul(", 1),
                (r"static_cast<unsigned long>\(", "(unsigned long)(", 1),
-               (r"return media_\.read_block\(pos\);", "if (g_exc) { opt_SectorBuffer none_; none_.has = 0; return none_; } return DataAccess_read_block(self->media_, pos);", 1)]})
+               (r"return media_\.read_block\(([^;]*)\);", r"if (g_exc) { opt_SectorBuffer none_; none_.has = 0; return none_; } return DataAccess_read_block(self->media_, \1);", 1)]})
 add({"name": "FilePresentedBlockwise_read_block", "file": "dfs/img_sdf.cc",
      "anchor": r"std::optional<SectorBuffer> FilePresentedBlockwise::read_block\(unsigned long lba\)",
      "sig": "static opt_SectorBuffer FilePresentedBlockwise_read_block(struct FilePresentedBlockwise *self, unsigned long lba)",
      "rules": [(r"DFS::SECTOR_BYTES", "SECTOR_BYTES", 4),
-               (r"std::vector<byte> got = f_\.read\(pos, SECTOR_BYTES\);", "struct bytevec got = FileAccess_read(self->f_, pos, SECTOR_BYTES);", 1),
+               (r"std::vector<byte> got = f_\.read\(([^;]*)\);", r"struct bytevec got = FileAccess_read(self->f_, \1);", 1),
                (r"got\.size\(\)", "got.n", 2), ASSERT(1),
                (NULLOPT_SB[0], NULLOPT_SB[1], 1),
                (r"std::copy\(got\.begin\(\), got\.end\(\), buf\.begin\(\)\);", "bytevec_copy(&got, buf.d);", 1),
@@ -125,9 +125,9 @@ add({"name": "smells_like_watford", "file": ID,
                (r"\bauto start_sector\b", "__auto_type start_sector", 1),
                (r'eliminated_format\(DFS::Format::WDFS, "sector 2 is in use by a file"\);', "g_witness_pos = pos;  /* diagnostic dropped, witness kept */", 1),
                (r'eliminated_format\(DFS::Format::WDFS, "[^"]*"\);', "/* diagnostic dropped */", 2),
-               (r"auto got = access\.read_block\(2\);", "opt_SectorBuffer got = DataAccess_read_block(access, 2);", 1),
+               (r"auto got = access\.read_block\(([^;]*)\);", r"opt_SectorBuffer got = DataAccess_read_block(access, \1);", 1),
                (r"if \(!got\)", "if (!got.has)", 1),
-               (r"std::all_of\(got->cbegin\(\), got->cbegin\(\)\+0x08,\s*\[\]\(byte b\) \{ return b == 0xAA; \}\)", "bytes_all_equal(got.val.d, 0x08, 0xAA)", 1),
+               (r"std::all_of\(got->cbegin\(\), got->cbegin\(\)\+([0-9a-fx]+),\s*\[\]\(byte b\) \{ return b == ([0-9A-Fa-fx]+); \}\)", r"bytes_all_equal(got.val.d, \1, \2)", 1),
                (r"(for \(pos = 8; pos <= last_catalog_entry_pos; pos \+= 8\))", r"\1 WATFORD_LOOP_CONTRACT", 1)],
      "dropped": ["eliminated_format(...) diagnostics (verbose-only stderr text)"]})
 
@@ -175,7 +175,7 @@ add({"name": "free_compute", "file": "dfs/cmd_free.cc",
                ASSERT(2), (r"std::numeric_limits<int>::max\(\)", "INT_MAX", 2),
                (r"\bdiv_t\b", "verif_div_t", 1), (r"\bdiv\(", "verif_div(", 1), (r"static_cast<int>\(", "(int)(", 2),
                (r"DFS::SECTOR_BYTES", "SECTOR_BYTES", ">=1"),
-               (r"sectors_used = last_sector_of_file;", "{ sectors_used = last_sector_of_file; g_used_witness = ei; }", 1),
+               (r"(sectors_used = last_sector_of_file[^;]*;)", r"{ \1 g_used_witness = ei; }", 1),
                (r"ostream_flag_saver restore_cout_flags\(std::cout\);", "/* dropped: stream flag saver */", 1),
                (r"auto show = \[\]\(int files, int sectors, const std::string& desc\)\s*\{.*?\};", "/* dropped: output lambda (formatting is outside this contract) */", 1),
                (r"auto prevlocale = std::cout\.imbue\(.*?\);", "/* dropped: locale */", 1),
@@ -233,7 +233,7 @@ add({"name": "hxc_le_quad", "file": HX, "anchor": r"unsigned long le_quad\(const
 add({"name": "hxc_read_and_verify_header", "file": HX,
      "anchor": r"std::optional<Header> read_and_verify_header\(DFS::FileAccess \*f, std::string& error\)",
      "sig": "static struct opt_HxcHeader hxc_read_and_verify_header(struct FileAccess *f)",
-     "rules": [(r"std::vector<byte> header_data = f->read\(0, 19\);", "struct dynvec header_data = FileAccess_read_dyn(f, 0, 19); struct opt_HxcHeader ret_; ret_.has = 0;", 1),
+     "rules": [(r"std::vector<byte> header_data = f->read\(([^;]*)\);", r"struct dynvec header_data = FileAccess_read_dyn(f, \1); struct opt_HxcHeader ret_; ret_.has = 0;", 1),
                (r"header_data\.size\(\)", "header_data.n", 1),
                (r'error = "[^"]*";', "g_diag++;  /* diagnostic text dropped */", 1),
                (r"header_data\.data\(\)", "header_data.d", ">=2"),
@@ -250,12 +250,12 @@ add({"name": "hxc_get_track_metadata", "file": HX,
      "sig": "static void hxc_get_track_metadata(struct HxcMfmFile *self)",
      "rules": [(r"std::map<TrackDataKey, TrackData> result;", "/* result: ghost map (trackmap_insert) */", 1),
                (r"header_\.", "self->header_.", 3),
-               (r"std::vector<byte> raw_metadata = file_->read\(pos, 11\);", "struct dynvec raw_metadata = FileAccess_read_dyn(self->file_, pos, 11);", 1),
+               (r"std::vector<byte> raw_metadata = file_->read\(([^;]*)\);", r"struct dynvec raw_metadata = FileAccess_read_dyn(self->file_, \1);", 1),
                (r"raw_metadata\.size\(\)", "raw_metadata.n", 1),
                (r'throw InvalidHxcMfmFile\("[^"]*"\);', "{ VERIF_THROW(Other, 0); return; }", 2),
                (r"raw_metadata\.data\(\)", "raw_metadata.d", 1),
-               (r"const TrackDataKey key\(le_word\(raw\), raw\[2\]\);", "const struct TrackDataKey key = { hxc_le_word(raw), raw[2] };", 1),
-               (r"const TrackData td\(le_quad\(raw\+3\), le_quad\(raw\+7\)\);", "const struct TrackData td = { hxc_le_quad(raw+3), hxc_le_quad(raw+7) };", 1),
+               (r"const TrackDataKey key\(([^;]*)\);", r"const struct TrackDataKey key = { \1 };", 1), (r"\ble_word\(", "hxc_le_word(", ">=1"),
+               (r"const TrackData td\(([^;]*)\);", r"const struct TrackData td = { \1 };", 1), (r"\ble_quad\(", "hxc_le_quad(", ">=1"),
                (r"if \(DFS::verbose\)\s*\{.*?\}", "/* verbose dropped */", 2),
                (r"result\.insert\(result\.end\(\), std::make_pair\(key, td\)\);", "trackmap_insert(key, td);", 1),
                (r"return result;", "return;", 1),
@@ -303,7 +303,7 @@ add({"name": "MmbFile_ctor", "file": "dfs/img_mmb.cc",
      "rules": [(r"const DFS::Geometry disc_image_geom = DFS::Geometry\(80, 1, 10, DFS::Encoding::FM\);", "/* disc_image_geom = Geometry(80, 1, 10, FM) */", 1),
                (r"const auto disc_image_sectors = disc_image_geom\.total_sectors\(\);", "const sector_count_type disc_image_sectors = 80u * 1u * 10u;  /* Geometry(80,1,10).total_sectors() */", 1),
                (r"DFS::SECTOR_BYTES", "SECTOR_BYTES", 1),
-               (r"auto got = block_access\(\)\.read_block\(sec\);", "opt_SectorBuffer got = DataAccess_read_block(blocks, sec);", 1),
+               (r"auto got = block_access\(\)\.read_block\(([^;]*)\);", r"opt_SectorBuffer got = DataAccess_read_block(blocks, \1);", 1),
                (r"if \(!got\)", "if (!got.has)", 1),
                (r'throw DFS::BadFileSystem\("[^"]*"\);', "{ VERIF_THROW(BadFileSystem, 0); return; }", 1),
                (r"got->data\(\)", "got.val.d", 1),
@@ -313,8 +313,8 @@ add({"name": "MmbFile_ctor", "file": "dfs/img_mmb.cc",
                (r"std::cerr << \"MMB entry \".*?<< \"\\n\";", "g_diag++;  /* warning text dropped */", 1),
                (r"std::ostringstream ss;.*?const std::string disc_name = ss\.str\(\);", "/* disc_name text dropped */", 1),
                (r"\bauto initial_skip_sectors\b", "unsigned long initial_skip_sectors", 1),
-               (r"add_view\(FileView\(block_access\(\), name, disc_name,\s*disc_image_geom,\s*initial_skip_sectors,\s*disc_image_sectors,\s*DFS::sector_count\(0\),\s*disc_image_sectors\)\);",
-                "mmb_add_view(1, initial_skip_sectors, disc_image_sectors, sector_count(0), disc_image_sectors);", 1),
+               (r"DFS::sector_count\(", "sector_count(", ">=0"),
+               (r"add_view\(FileView\(block_access\(\), name, disc_name,\s*disc_image_geom,([^;]*)\)\);", r"mmb_add_view(1,\1);", 1),
                (r"add_view\(FileView::unformatted_device\(name, disc_name, disc_image_geom\)\);", "mmb_add_view(0, 0, 0, 1, 1);  /* unformatted_device: take = 0 */", 1),
                (r"(for \(unsigned sec = 0; sec < mmb_sectors; \+\+sec\))", r"\1 MMB_OUTER_LOOP_CONTRACT", 1),
                (r"(for \(unsigned i = 0; i < entries_per_sector; \+\+i\))", r"\1 MMB_INNER_LOOP_CONTRACT", 1)],
@@ -335,7 +335,7 @@ add({"name": "noninterleaved_views", "file": "dfs/img_sdf.cc",
      "rules": [(r"DFS::sector_count_type", "sector_count_type", 2), GEO_MAKE + (1,),
                (r"single_side_geom\.total_sectors\(\)", "Geometry_total_sectors(&single_side_geom)", 1),
                (r"std::ostringstream os;.*?std::string desc = os\.str\(\);", "/* description text dropped */", 1),
-               (r"FileView v\(block_access\(\), name, desc, single_side_geom,\s*skip, side_len, 0, side_len\);", "view_add(skip, side_len, 0, side_len);", 1),
+               (r"FileView v\(block_access\(\), name, desc, single_side_geom,([^;]*)\);", r"view_add(\1);", 1),
                (r"DFS::sector_count\(", "sector_count(", 1),
                (r"add_view\(v\);", "/* add_view(v): recorded by view_add */", 1),
                (r"(for \(int surface_num = 0; surface_num < geometry\.heads; \+\+surface_num\))", r"\1 SIDES_LOOP_CONTRACT", 1)],
@@ -346,9 +346,8 @@ add({"name": "interleaved_views", "file": "dfs/img_sdf.cc",
      "sig": "static void interleaved_views(const struct Geometry geometry)",
      "rules": [GEO_MAKE + (1,), (r"DFS::sector_count_type", "sector_count_type", 1),
                (r"single_side_geom\.sectors", "single_side_geom.sectors", 1),
-               (r"FileView side0\(block_access\(\), name, make_desc\(0\),\s*single_side_geom,\s*0,\s*track_len,\s*track_len,\s*single_side_geom\.total_sectors\(\)\);",
-                "view_add(0, track_len, track_len, Geometry_total_sectors(&single_side_geom));", 1),
-               (r"FileView side1\(block_access\(\), name, make_desc\(1\),\s*single_side_geom,\s*track_len,\s*track_len,\s*track_len,\s*single_side_geom\.total_sectors\(\)\);",
-                "view_add(track_len, track_len, track_len, Geometry_total_sectors(&single_side_geom));", 1),
+               (r"single_side_geom\.total_sectors\(\)", "Geometry_total_sectors(&single_side_geom)", 2),
+               (r"FileView side0\(block_access\(\), name, make_desc\(0\),\s*single_side_geom,([^;]*)\);", r"view_add(\1);", 1),
+               (r"FileView side1\(block_access\(\), name, make_desc\(1\),\s*single_side_geom,([^;]*)\);", r"view_add(\1);", 1),
                (r"add_view\(side[01]\);", "/* add_view: recorded by view_add */", 2)],
      "dropped": ["view description lambda", "Geometry::encoding"]})
